@@ -81,6 +81,7 @@ class SimClock:
 ENGINES = {
     'dmrg2': ('GroundStateSearch', 'TwoSiteDMRGEngine'),
     'dmrg1': ('GroundStateSearch', 'SingleSiteDMRGEngine'),
+    'exc': ('OrthogonalExcitations', 'TwoSiteDMRGEngine'),
     'tebd': ('RealTimeEvolution', 'TEBDEngine'),
     'qrtebd': ('RealTimeEvolution', 'QRBasedTEBDEngine'),
     'tdvp2': ('RealTimeEvolution', 'TwoSiteTDVPEngine'),
@@ -101,7 +102,7 @@ TIME_DEPENDENT = ('tdtebd', 'tdexpmpo', 'tdtdvp2')
 
 
 FAMILY_SLOTS = ['dmrg2', 'dmrg2', 'dmrg1', 'tebd', 'tebd', 'qrtebd', 'tdvp2', 'tdvp1', 'expmpo', 'idmrg', 'idmrg', 'tdcorr',
-                'tdcorr_bk', 'spectral', 'vumps', 'tdtebd', 'tdexpmpo', 'tdtdvp2', 'eng_seg', 'eng_fin']
+                'tdcorr_bk', 'spectral', 'vumps', 'tdtebd', 'tdexpmpo', 'tdtdvp2', 'eng_seg', 'eng_fin', 'exc']
 # eng_*: resume through the algorithm-level API (checks/c18_engine.py)
 # infinite DMRG twice: cheap runs, and the richest resume data (environments)
 
@@ -146,10 +147,21 @@ def gen_config(seed, tier='quick', family=None, index=None):
         # a save/load round-trip defect (C17's subject, a pure function of the object: outside this technique), so
         # VUMPS runs use the pickle formats here; see DESIGN.md 9.7.
         cfg['ext'] = wl.choice(['.pkl', '.pklz'])
-    if fam in ('idmrg', 'vumps'):
+    if fam in ('idmrg', 'vumps', 'exc'):
         cfg['L'] = 2
         cfg['model'] = 'TFIChain'  # gapped (g=1.5): infinite-system runs converge within the few sweeps we do
-    if fam.startswith('dmrg') or fam in ('idmrg', 'vumps'):
+    if fam == 'exc':
+        # OrthogonalExcitations on a segment of an infinite ground state that an earlier GroundStateSearch left in
+        # `gs<ext>`; with write_back the simulation rewrites *that* file (converged environments) through
+        # save_results.  resume_run_algorithm is a NotImplementedError: file consistency only, like VUMPS.
+        cfg.update({'conserve': 'best', 'group_sites': 1, 'preexisting_output': False, 'extra_measurements': False,
+                    'canonicalize': False, 'save_every': 0.0,
+                    'write_back': wl.random() < 0.75, 'enlarge': wl.choice([2, 3]), 'N_excitations': wl.choice([1, 2]),
+                    'switch_sector': wl.random() < 0.6, 'max_sweeps': wl.choice([3, 4, 5]), 'mixer': None,
+                    'fixed_sweeps': True})
+    if fam == 'exc':
+        pass
+    elif fam.startswith('dmrg') or fam in ('idmrg', 'vumps'):
         cfg.update({
             'max_sweeps': wl.choice([3, 4, 6]) if wl.random() > 0.04 else 12,  # occasionally a long run
             'N_sweeps_check': wl.choice([1, 1, 2]),
@@ -197,15 +209,15 @@ def gen_config(seed, tier='quick', family=None, index=None):
     # inside a save and is waiting to be resumed while this simulation runs next to it.
     nl = random.Random(core.sub_seed(seed, 'names'))
     cfg['out_stem'] = nl.choice(['results'] * 6 + ['scan_Jz_0.5', 'run.v2', 'chi_16.g_1.25', 'a.b'])
-    cfg['neighbour'] = nl.random() < (0.6 if '.' in cfg['out_stem'] else 0.15)
+    cfg['neighbour'] = fam != 'exc' and nl.random() < (0.6 if '.' in cfg['out_stem'] else 0.15)
     # the job script protects finished results: "skip if the output exists" (no output exists when the run starts)
-    cfg['skip_if_output_exists'] = (not cfg['preexisting_output']) and nl.random() < 0.12
+    cfg['skip_if_output_exists'] = (not cfg['preexisting_output']) and fam != 'exc' and nl.random() < 0.12
     # `random_seed`, and a model with quenched disorder drawn at construction (from numpy's global generator, which
     # that option seeds, or from the model's own rng, whose seed the simulation derives from it)
     cfg['random_seed'] = 1234 if nl.random() < 0.2 else None
     cfg['disorder'] = None
     if (cfg['random_seed'] is not None and cfg['model'] == 'TFIChain' and fam not in TIME_DEPENDENT
-            and fam not in ('idmrg', 'vumps')):
+            and fam not in ('idmrg', 'vumps', 'exc')):
         cfg['disorder'] = nl.choice(['np', 'np', 'rng', None])
     return cfg
 
@@ -220,8 +232,29 @@ def neighbour_stem(stem):
     return head + '.' + last + 'x'
 
 
+def gs_file(cfg):
+    return 'gs' + cfg['ext']
+
+
+def build_gs_params(cfg):
+    """The earlier ground-state search whose results file an `exc` configuration starts from."""
+    return {'simulation_class': 'GroundStateSearch', 'output_filename': gs_file(cfg), 'model_class': 'TFIChain',
+            'model_params': {'L': 2, 'J': 1.0, 'g': 1.5, 'bc_MPS': 'infinite', 'conserve': 'parity'},
+            'initial_state_params': {'method': 'lat_product_state', 'product_state': [['up']]},
+            'algorithm_params': {'trunc_params': {'chi_max': 16, 'svd_min': 1.0e-8}, 'max_sweeps': 30, 'mixer': False}}
+
+
 def build_params(cfg, out_name=None):
     out_name = out_name or cfg.get('out_stem', 'results')
+    if cfg['family'] == 'exc':
+        n = cfg['max_sweeps']
+        return {'simulation_class': 'OrthogonalExcitations', 'output_filename': out_name + cfg['ext'],
+                'ground_state_filename': gs_file(cfg), 'save_every_x_seconds': 0.0,
+                'write_back_converged_ground_state_environments': bool(cfg['write_back']),
+                'segment_enlarge': cfg['enlarge'], 'N_excitations': cfg['N_excitations'],
+                'switch_charge_sector': [1] if cfg['switch_sector'] else None,
+                'algorithm_params': {'trunc_params': {'chi_max': 16, 'svd_min': 1.0e-8}, 'min_sweeps': n,
+                                     'max_sweeps': n, 'mixer': False}}
     sim_class, alg = ENGINES[cfg['family']]
     L = cfg['L']
     fam = cfg['family']
